@@ -9,7 +9,23 @@ import traceback
 from . import common
 
 
+def _normalise_signals():
+    """A check started as a background job of a non-interactive shell (`cmd &`, xargs, CI runners) inherits SIGINT/SIGQUIT
+    *ignored*, and an ignored disposition survives exec: the job processes the harness starts would then never see the
+    SIGINT the crash-point scenarios deliver (Python installs its KeyboardInterrupt handler only when SIGINT is not ignored).
+    Give every child the default dispositions, whatever the caller's were."""
+    import signal
+    for sig, handler in ((signal.SIGINT, signal.default_int_handler), (signal.SIGQUIT, signal.SIG_DFL),
+                         (signal.SIGTERM, signal.SIG_DFL)):
+        try:
+            if signal.getsignal(sig) == signal.SIG_IGN:
+                signal.signal(sig, handler)
+        except (OSError, ValueError):
+            pass
+
+
 def main():
+    _normalise_signals()
     ap = argparse.ArgumentParser()
     ap.add_argument("prop")
     ap.add_argument("--tier", default=os.environ.get("VERIF_TIER", "quick"), choices=["quick", "thorough"])
